@@ -260,15 +260,18 @@ pub fn fine_run(a: &[String]) -> i32 {
     // with few configurations (quick tier) a unit is further split by first-level branch so that all
     // shards have work
     let mut units: Vec<(usize, bool, usize, usize)> = Vec::new();
-    for cold in [true, false] {
-        let parts = if cfgs.len() * 2 >= nshards * 4 { 1 } else if cold { 4 } else { 2 };
-        for i in 0..cfgs.len() {
-            for part in 0..parts {
+    let parts = if cfgs.len() * 2 >= nshards * 4 { 1 } else { 8 };
+    // ordered by part first, so that the (possibly heavier) equal-numbered parts of different configurations
+    // go to different shards; cold units of a shard still run before its warm ones (see below)
+    for part in 0..parts {
+        for cold in [true, false] {
+            for i in 0..cfgs.len() {
                 units.push((i, cold, part, parts));
             }
         }
     }
-    let mine: Vec<(usize, bool, usize, usize)> = units.iter().enumerate().filter(|(u, _)| u % nshards == shard).map(|(_, x)| *x).collect();
+    let mut mine: Vec<(usize, bool, usize, usize)> = units.iter().enumerate().filter(|(u, _)| u % nshards == shard).map(|(_, x)| *x).collect();
+    mine.sort_by_key(|u| !u.1);
     for (i, cold, part, parts) in mine {
         let (name, bodies) = &cfgs[i];
         PART.0.store(part, std::sync::atomic::Ordering::Relaxed);
@@ -672,7 +675,7 @@ pub fn explore(bodies: &[Vec<Call>], bound: usize, cap: u64, progress: &mut dyn 
     explore_mode(bodies, bound, cap, false, progress)
 }
 
-/// (part, parts): this process explores only the branches at first-level points i with i % parts == part.
+/// (part, parts): this process explores only the preemptive branches at points i with i % parts == part.
 static PART: (std::sync::atomic::AtomicUsize, std::sync::atomic::AtomicUsize) = (std::sync::atomic::AtomicUsize::new(0), std::sync::atomic::AtomicUsize::new(1));
 
 /// `cold`: every execution (and every isolated reference call) runs in a forked child of this
@@ -767,7 +770,9 @@ pub fn explore_mode(bodies: &[Vec<Call>], bound: usize, cap: u64, cold: bool, pr
             let still = p.running.map(|r| p.enabled.contains(&r)).unwrap_or(false);
             // a partitioned exploration keeps only its own share of the first-level branches
             let (part, parts) = (PART.0.load(std::sync::atomic::Ordering::Relaxed), PART.1.load(std::sync::atomic::Ordering::Relaxed));
-            let mine = !(prefix.is_empty() && parts > 1 && i % parts != part);
+            // (only branches that spend a preemption are partitioned - at any depth; the free ones, such as the
+            // choice of who starts, are explored by every part, so that each part sees its share below them)
+            let mine = !(still && parts > 1 && i % parts != part);
             if i >= prefix.len() && mine {
                 for alt in 1..p.enabled.len() {
                     let c = cost + if still { 1 } else { 0 };
